@@ -125,6 +125,13 @@ func ExpectPanics() {}
 // SchedChoices enables n symbolic scheduling choices (select with several ready cases).
 func SchedChoices(n int) {}
 
+// ImplicitPoints(true): under vt.Threads every atomic / mutex / channel operation is a scheduling point
+// too, not only verifhook.Point calls. Counterexamples that need such points are replayed by stress.
+func ImplicitPoints(on bool) {}
+
+// Stress reports whether the native replay runs in stress mode (no schedule control, many repetitions).
+func Stress() bool { return os.Getenv("VT_STRESS") != "" }
+
 // Background marks the calling goroutine as one that may legitimately stay blocked.
 func Background() {}
 
